@@ -214,6 +214,7 @@ func (dq *Deque[T]) WaitPushBack(ctx context.Context, it T) error {
 func (dq *Deque[T]) waitPushAfter(ctx context.Context, it T, afterGetter func() *element[T]) error {
 	if dq.tracker.cap() > dq.tracker.len() {
 		if dq.tracker.len() == 0 {
+			defer verifSig("signal", dq.updates, "updates")
 			defer dq.updates.Signal()
 		}
 		return dq.addAfter(it, afterGetter())
@@ -222,7 +223,13 @@ func (dq *Deque[T]) waitPushAfter(ctx context.Context, it T, afterGetter func() 
 	cond := dq.updates
 	// If the context terminates, wake the waiter.
 	ctx, cancel := context.WithCancel(ctx)
-	go func() { <-ctx.Done(); cond.Broadcast() }()
+	verifAt(ctx, "helper.spawn", cond, "updates")
+	go func() {
+		<-ctx.Done()
+		verifAt(ctx, "helper.gate", cond)
+		cond.Broadcast()
+		verifAt(ctx, "helper.done", cond)
+	}()
 	defer cancel()
 
 	for dq.tracker.cap() <= dq.tracker.len() {
@@ -230,12 +237,15 @@ func (dq *Deque[T]) waitPushAfter(ctx context.Context, it T, afterGetter func() 
 			return ErrQueueClosed
 		}
 		cond.Signal()
+		verifSig("signal", cond, "updates")
 
 		select {
 		case <-ctx.Done():
 			return ctx.Err()
 		default:
+			verifAt(ctx, "prepark", cond, "updates")
 			cond.Wait()
+			verifAt(ctx, "woken", cond, dq.mtx)
 		}
 
 	}
@@ -349,6 +359,7 @@ func (dq *Deque[T]) addAfter(value T, after *element[T]) error {
 
 	if err := dq.tracker.add(); err != nil {
 		dq.updates.Broadcast()
+		verifSig("broadcast", dq.updates, "updates")
 		return err
 	}
 
@@ -360,11 +371,14 @@ func (dq *Deque[T]) addAfter(value T, after *element[T]) error {
 
 	if after.isRoot() {
 		dq.nfront.Signal()
+		verifSig("signal", dq.nfront, "nfront")
 	}
 	if after.prev.isRoot() {
 		dq.nback.Signal()
+		verifSig("signal", dq.nback, "nback")
 	}
 	dq.updates.Signal()
+	verifSig("signal", dq.updates, "updates")
 	return nil
 }
 
@@ -378,11 +392,14 @@ func (dq *Deque[T]) pop(it *element[T]) (out T, _ bool) {
 	}
 
 	if it.prev.isRoot() {
+		defer verifSig("signal", dq.nfront, "nfront")
 		defer dq.nfront.Signal()
 	}
 	if it.next.isRoot() {
+		defer verifSig("signal", dq.nback, "nback")
 		defer dq.nback.Signal()
 	}
+	defer verifSig("broadcast", dq.updates, "updates")
 	defer dq.updates.Broadcast()
 
 	dq.tracker.remove()
@@ -454,7 +471,13 @@ func (it *element[T]) wait(ctx context.Context, direction dqDirection) error {
 
 	// If the context terminates, wake the waiter.
 	ctx, cancel := context.WithCancel(ctx)
-	go func() { <-ctx.Done(); cond.Broadcast() }()
+	verifAt(ctx, "helper.spawn", cond, it.list.verifCondName(cond))
+	go func() {
+		<-ctx.Done()
+		verifAt(ctx, "helper.gate", cond)
+		cond.Broadcast()
+		verifAt(ctx, "helper.done", cond)
+	}()
 	defer cancel()
 
 	next := it.getNextOrPrevious(direction)
@@ -463,12 +486,15 @@ func (it *element[T]) wait(ctx context.Context, direction dqDirection) error {
 			return ErrQueueClosed
 		}
 		cond.Signal()
+		verifSig("signal", cond, it.list.verifCondName(cond))
 
 		select {
 		case <-ctx.Done():
 			return ctx.Err()
 		default:
+			verifAt(ctx, "prepark", cond, it.list.verifCondName(cond))
 			cond.Wait()
+			verifAt(ctx, "woken", cond, it.list.mtx)
 		}
 	}
 
